@@ -12,6 +12,7 @@ import (
 	"pgregory.net/rapid"
 
 	"verif/gen"
+	"verif/model"
 	"verif/ref"
 	"verif/stats"
 	"verif/syn"
@@ -26,10 +27,13 @@ type PolicyEntry struct {
 }
 
 type VisitorSpec struct {
-	Form   int           `json:"form"` // 0 KindFuncMap{Kind,Leave} 1 KindFuncMap{Enter,Leave} 2 generic 3 Enter/LeaveKindMap 4 mixture
+	Form   int           `json:"form"` // 0 KindFuncMap{Kind,Leave} 1 KindFuncMap{Enter,Leave} 2 generic 3 Enter/LeaveKindMap 4 mixture 5 KindFuncMap for some kinds only 6 Enter/LeaveKindMap for some kinds only
 	Policy []PolicyEntry `json:"policy"`
 	// Subset: for form 4, the kinds handled through KindFuncMap{Kind} only (no leave callback)
 	Subset []string `json:"subset,omitempty"`
+	// SubsetLeave: for form 6, the kinds with a leave-by-kind function (Subset: enter-by-kind).
+	// Forms 5 and 6 have no callback at all for the other nodes.
+	SubsetLeave []string `json:"subsetLeave,omitempty"`
 }
 
 type VisitCase struct {
@@ -65,6 +69,23 @@ func (s *VisitorSpec) action(index int, phase string) string {
 }
 
 func (s *VisitorSpec) observes(kind, phase string) bool {
+	in := func(l []string) bool {
+		for _, k := range l {
+			if k == kind {
+				return true
+			}
+		}
+		return false
+	}
+	switch s.Form {
+	case 5: // kind-specific functions for some kinds only, nothing generic: the other nodes are silent
+		return in(s.Subset)
+	case 6: // enter-by-kind and leave-by-kind maps over different subsets
+		if phase == "enter" {
+			return in(s.Subset)
+		}
+		return in(s.SubsetLeave)
+	}
 	if s.Form == 4 {
 		for _, k := range s.Subset {
 			if k == kind {
@@ -156,6 +177,19 @@ func buildVisitor(spec *VisitorSpec, byRef map[interface{}]*syn.Node, order map[
 		opts.EnterKindMap, opts.LeaveKindMap = map[string]visitor.VisitFunc{}, map[string]visitor.VisitFunc{}
 		for _, k := range allKinds {
 			opts.EnterKindMap[k] = cb("enter")
+			opts.LeaveKindMap[k] = cb("leave")
+		}
+	case 5:
+		opts.KindFuncMap = map[string]visitor.NamedVisitFuncs{}
+		for _, k := range spec.Subset {
+			opts.KindFuncMap[k] = visitor.NamedVisitFuncs{Enter: cb("enter"), Leave: cb("leave")}
+		}
+	case 6:
+		opts.EnterKindMap, opts.LeaveKindMap = map[string]visitor.VisitFunc{}, map[string]visitor.VisitFunc{}
+		for _, k := range spec.Subset {
+			opts.EnterKindMap[k] = cb("enter")
+		}
+		for _, k := range spec.SubsetLeave {
 			opts.LeaveKindMap[k] = cb("leave")
 		}
 	default:
@@ -362,13 +396,30 @@ func TestC14(t *testing.T) {
 		c.TypeInfo = gen.Chance(rt, 35, "typeInfo")
 		var toks []string
 		kind := "exec"
+		typed := false
 		if c.TypeInfo {
-			toks = syn.GenDocumentTokensWith(rt, "exec", kitchenVocabulary)
+			if gen.Chance(rt, 50, "typeDirected") {
+				// a document built from the schema's types (values of the right shape at every
+				// input position, list-of-one literals, variables), optionally with one violation
+				km := kitchenModel()
+				d, _, _ := gen.Doc(rt, km, gen.DocOpts{Budget: 20})
+				if gen.Chance(rt, 40, "inject") {
+					if nd, _, ok := gen.InjectViolation(rt, km, d, gen.Uniform(rt, gen.NumInjectionOperators(), "operator")); ok {
+						d = nd
+					}
+				}
+				c.Text = model.Print(d, nil).Text
+				typed = true
+			} else {
+				toks = syn.GenDocumentTokensWith(rt, "exec", kitchenVocabulary)
+			}
 		} else {
 			kind = []string{"exec", "schema", "mixed"}[gen.Uniform(rt, 3, "kind")]
 			toks = syn.GenDocumentTokens(rt, kind)
 		}
-		c.Text = syn.Render(rt, toks, false)
+		if !typed {
+			c.Text = syn.Render(rt, toks, false)
+		}
 		// number of nodes, to aim policies at existing indices
 		nNodes := 1
 		if d, err := libParse([]byte(c.Text)); err == nil {
@@ -380,11 +431,14 @@ func TestC14(t *testing.T) {
 		}
 		nonTrivialPolicy := false
 		for v := 0; v < nVis; v++ {
-			spec := VisitorSpec{Form: gen.Uniform(rt, 5, "form")}
-			if spec.Form == 4 {
+			spec := VisitorSpec{Form: gen.Uniform(rt, 7, "form")}
+			if spec.Form >= 4 {
 				for _, k := range allKinds {
 					if gen.Chance(rt, 25, "subset") {
 						spec.Subset = append(spec.Subset, k)
+					}
+					if spec.Form == 6 && gen.Chance(rt, 25, "subsetLeave") {
+						spec.SubsetLeave = append(spec.SubsetLeave, k)
 					}
 				}
 			}
@@ -402,6 +456,9 @@ func TestC14(t *testing.T) {
 			stats.R.Class(fmt.Sprintf("visitors_%d", nVis))
 			if c.TypeInfo {
 				stats.R.Class("type_tracking")
+			}
+			if typed {
+				stats.R.Class("type_directed_document")
 			}
 			if nonTrivialPolicy {
 				stats.R.Class("skip_or_break_in_policy")
